@@ -62,7 +62,7 @@ def sub_objects(doc, rng, limit=12):
 def run(ctx):
     rng = ctx.rng
     # ---- translator + Lean
-    sites = te.scan("/repo")
+    sites = te.scan(core.REPO)
     digest = te.write_lean(sites, os.path.join(core.LEAN, "Gen", "Effects.lean"))
     ext = [s for s in sites if s["cls"] == "external"]
     ok, log, dt = core.build(["PM", "pmdriver", "Props.C10", "Gen.Effects"])
